@@ -56,9 +56,10 @@ pub fn install_panic_capture() {
 /// Runs `f`, turning a panic into `Err("message @ file:line")`.
 pub fn catch<T>(f: impl FnOnce() -> T) -> Result<T, String> {
     install_panic_capture();
-    CAPTURING.with(|c| c.set(true));
+    // nestable: an inner `catch` must not switch capturing off for the rest of an outer one
+    let prev = CAPTURING.with(|c| c.replace(true));
     let r = panic::catch_unwind(AssertUnwindSafe(f));
-    CAPTURING.with(|c| c.set(false));
+    CAPTURING.with(|c| c.set(prev));
     match r {
         Ok(v) => Ok(v),
         Err(_) => Err(PANIC_MSG
